@@ -247,6 +247,11 @@ class ObjectTemplate(base.HyperValue, utils.Formattable):
       assert self.is_constant
       value = self._value
       copied = False
+      if isinstance(value, symbolic.Symbolic):
+        # Never hand out a node of the template itself: the caller may modify
+        # the decoded value.
+        value = value.clone()
+        copied = True
 
     # Compute derived values if needed.
     if self._compute_derived:
